@@ -32,11 +32,13 @@ ALPH = {
     'I': [0, 1, 2],
     'D': [D(2020, 1, 2), D(2020, 1, 1), D(2020, 1, 3)],
     'M': [D(2021, 5, 1), D(2020, 5, 1), D(2022, 5, 1)],
+    'W': ['x', 'long', 'yy'],     # strings of different widths: a depth's arrays differ in dtype between parents
+    'F': [1, 2, 2.5],             # ints under one parent, floats under another
 }
-ABSENT = {'U': 'zz', 'S': 'qq', 'i': 77, 'I': 88, 'D': D(2031, 1, 1), 'M': D(2033, 1, 1)}
-CTOR = {'U': 'Index', 'S': 'Index', 'i': 'Index', 'I': 'Index', 'D': 'IndexDate', 'M': 'IndexDate'}
+ABSENT = {'U': 'zz', 'S': 'qq', 'i': 77, 'I': 88, 'D': D(2031, 1, 1), 'M': D(2033, 1, 1), 'W': 'wwwwww', 'F': 99}
+CTOR = {'U': 'Index', 'S': 'Index', 'i': 'Index', 'I': 'Index', 'D': 'IndexDate', 'M': 'IndexDate', 'W': 'Index', 'F': 'Index'}
 
-PATTERNS = {2: ['Ui', 'iU', 'Di', 'UD', 'II', 'DM'], 3: ['UiS', 'DUi', 'IiU', 'SDI'], 4: ['UiSI', 'DiUI']}
+PATTERNS = {2: ['Ui', 'iU', 'Di', 'UD', 'II', 'DM'], 3: ['UiS', 'DUi', 'IiU', 'SDI', 'UWi', 'SFU', 'iWF'], 4: ['UiSI', 'DiUI', 'UWFI']}
 
 
 def make_rows(shape, pattern, shift):
@@ -737,6 +739,17 @@ def eval_tree(rep, case, tier, only=None):
             g = build_go(rows, pattern, variant, read, rep, rp)
             if g is None:
                 continue
+            # each per-depth array read as the FIRST view after the history (on its own replay of the history: any other view would refresh the caches)
+            for d_first in range(depth):
+                g1 = build_go(rows, pattern, variant, read, Sink(), rp)
+                if g1 is None:
+                    break
+                o1 = obs(lambda: list(g1.values_at_depth(d_first)))
+                exp1 = [r[d_first] for r in rows]
+                if o1[0] == 'exc':
+                    rep.fail(f'{PID}:go-first-read:values_at_depth-raises:{type(o1[1]).__name__}', f'values_at_depth({d_first}) read first after history {variant[0]} ({read}) raises {o1[1]!r}; rows {rows!r}', rp)
+                elif not eq_seq(o1[1], exp1) and not eq_seq(ns_ints_to_dt(o1[1], exp1), exp1):
+                    rep.fail(f'{PID}:go-first-read:values_at_depth', f'values_at_depth({d_first}) read first after history {variant[0]} ({read}) presents {o1[1]!r}, expected {exp1!r}', rp)
             check_derived(rep, g, rows, rp)   # before any view of g is read: the caches of g are as the history left them
             if not views(rep, g, rows, rp, 'go-views'):
                 continue
@@ -848,6 +861,37 @@ def run(repo, task):
     for case in rep.shard(cases):
         try:
             eval_tree(rep, case, tier)
+        except Exception:
+            rep.error(repr(case))
+    return rep.done()
+
+
+def run_go_derived(repo, task):
+    """the grow-only part only (used for C02 as well): after every history, indices derived from the grown index and the per-depth arrays read first
+    describe the same tuples"""
+    tier = task.get('tier', 'quick')
+    rep = Rep('C05-go-derived', task, rule='every label tree x every grow-only history x {cold, warm, between}: derived indices (IndexHierarchy(go), IndexHierarchyGO(go), copy, rename) '
+                                           'and values_at_depth read first present the tuple list', bound='as C05-hierarchy')
+    import json
+    import zlib
+    cases = sorted(tree_cases(tier), key=lambda c: (zlib.crc32(json.dumps(c, sort_keys=True).encode()), json.dumps(c, sort_keys=True)))
+    for case in rep.shard(cases):
+        try:
+            rows = case_rows(case)
+            pattern = case['pattern']
+            depth = len(rows[0])
+            for variant in go_variants(rows):
+                for read in READS:
+                    rp = dict(case, go=variant[0], read=read)
+                    rep.count(distinct_key=('go-derived', repr(sorted(rp.items(), key=str))))
+                    g = build_go(rows, pattern, variant, read, Sink(), rp)
+                    if g is None:
+                        continue
+                    s_ = Sink()
+                    check_derived(s_, g, rows, rp)
+                    for k_, w_, r_ in s_.failures:
+                        if ':go-derived' in k_:
+                            rep.fail(k_, w_, r_)
         except Exception:
             rep.error(repr(case))
     return rep.done()
